@@ -39,7 +39,10 @@ RULE = ('chains of 1..3 planes on a fresh Wavefront: amplitude/OPD/mask each sca
         'monolithic or segmented (mask cube from a random labelling, so bounding boxes overlap), pixelscale '
         'None/scalar/pair on both sides incl. inconsistent ones, Pupil focal lengths, per-segment tilt lists; after every '
         'step wavelength, pixelscale, focal_length, shape, .field, .intensity are compared, finally .insert(out, weight) '
-        'with prior content and dyadic weights; non-trivial = at least one array attribute and (two planes or a cube)')
+        'with prior content and dyadic weights; lentil.Tilt planes and tilted incoming wavefronts in the chains, the input '
+        'wavefront looked at again afterwards; masks as float/int/bool/uint8; plane-object histories: 2-4 multiplies on ONE '
+        'plane with amplitude/opd/mask updates (setter and in place) and repeated/different wavelengths, each compared with '
+        'the plane\'s CURRENT attributes; non-trivial = at least one array attribute and (two planes or a cube)')
 
 LAM = Fraction(1, 2 ** 20)
 
@@ -92,7 +95,7 @@ def attr_arrays(pl):
     return out
 
 
-def transmission(pl, L, r, c):
+def transmission(pl, L, r, c, mfac=1):
     """amplitude * exp(2 pi i opd/lambda) * [mask] at plane coordinate (r, c), origin = sample floor(n/2).
     The reading of the property: outside an array attribute nothing is transmitted."""
     g = plane_geom(pl)
@@ -113,7 +116,7 @@ def transmission(pl, L, r, c):
         k = opd['a'][i][j]
     else:
         k = opd['s']
-    ph = cmath.exp(2j * math.pi * ((k % L) / L)) if L > 1 else 1.0
+    ph = cmath.exp(2j * math.pi * (((k * mfac) % L) / L)) if L > 1 else 1.0
     if g['segs'] is None:
         mval = 1 if g['mscalar'] else 0
     else:
@@ -254,10 +257,17 @@ def rnd_plane(rng, L, maxn):
             kk = len(layers)
             pl['tilt'] = [[str(Fraction(rng.randint(-4, 4), 8)), str(Fraction(rng.randint(-4, 4), 8))]
                           for _ in range(kk * rng.randint(1, 2))]
+    pl['mdtype'] = rng.choice(['float', 'float', 'int', 'bool', 'uint8'])
     if mk != 'cube' and rng.random() < 0.15:
         pl['tilt'] = [[str(Fraction(rng.randint(-4, 4), 8)), str(Fraction(rng.randint(-4, 4), 8))]
                       for _ in range(rng.randint(1, 2))]
     return pl, (n, m)
+
+
+def tilt_plane(x, y):
+    """lentil.Tilt(x, y): a plane with default attributes that appends itself to every field's tilt list"""
+    return {'kind': 'Tilt', 'x': x, 'y': y, 'amp': {'s': [1, 0]}, 'opd': {'s': 0}, 'mask': None, 'pix': None,
+            'focal': None, 'tilt': []}
 
 
 def rnd_case(rng, maxn):
@@ -282,13 +292,16 @@ def rnd_case(rng, maxn):
             pl['focal'] = rng.choice([None, '2', '1/2', '10', '0'])
     c = {'op': 'chain', 'L': L, 'lam': str(LAM), 'wpix': rnd_pix(rng),
          'wfocal': rng.choice([None, None, '3', '0']), 'wtilt': None, 'planes': planes, 'insert': None}
-    if rng.random() < 0.1:
+    if rng.random() < 0.3:
         c['wtilt'] = [str(Fraction(rng.randint(-4, 4), 8)), str(Fraction(rng.randint(-4, 4), 8))]
+    # lentil.Tilt planes anywhere in the chain (before and after segmented planes)
+    for _ in range(rng.choice([0, 0, 1, 1, 2])):
+        planes.insert(rng.randint(0, len(planes)), tilt_plane(str(Fraction(rng.randint(-4, 4), 8)), str(Fraction(rng.randint(-4, 4), 8))))
     # pixel scales: mostly consistent, sometimes refused
     base = rnd_pix(rng)
     for pl in planes:
         t = rng.random()
-        if t < 0.5:
+        if t < 0.5 or pl['kind'] == 'Tilt':
             pl['pix'] = None
         elif t < 0.93:
             pl['pix'] = c['wpix'] if (c['wpix'] is not None and rng.random() < 0.7) else base
@@ -309,7 +322,7 @@ def rnd_views(rng):
     for _ in range(k):
         n, m = rng.randint(1, 4), rng.randint(1, 4)
         fs.append({'data': [[[rng.randint(-3, 3), rng.randint(-3, 3)] for _ in range(m)] for _ in range(n)],
-                   'off': [rng.randint(-3, 3), rng.randint(-3, 3)]})
+                   'off': [rng.randint(-3, 3), rng.randint(-3, 3)], 'form': rng.choice(['list', 'tuple', 'ndarray'])})
     R, Cc = rng.randint(1, 7), rng.randint(1, 7)
     return {'op': 'views', 'L': 1, 'shape': [rng.randint(1, 6), rng.randint(1, 6)], 'fs': fs,
             'insert': {'out': [[rng.randint(-3, 5) for _ in range(Cc)] for _ in range(R)],
@@ -364,9 +377,104 @@ def P7_gauss(rng):
     return rnd_gauss(rng, 0.0)
 
 
+def explicit_mask(pl):
+    """the mask the constructor stores, as an explicit argument (a mask derived from the amplitude does not follow
+    later amplitude updates)"""
+    if pl['mask'] is not None:
+        return pl['mask']
+    if 'a' in pl['amp']:
+        return {'a': [[[1 if is_nz(v) else 0, 0] for v in row] for row in pl['amp']['a']]}
+    return {'s': [1 if is_nz(pl['amp']['s']) else 0, 0]}
+
+
+def mask_edit(rng, mk):
+    """an in-place change of a mask array that keeps every bounding slice (Plane._slice is computed once)"""
+    import copy
+    if 's' in mk:
+        return None
+    layers = [mk['a']] if 'a' in mk else mk['c']
+    for _ in range(20):
+        new = copy.deepcopy(layers)
+        q = rng.randrange(len(new))
+        i, j = rng.randrange(len(new[q])), rng.randrange(len(new[q][0]))
+        new[q][i][j] = [0, 0] if is_nz(new[q][i][j]) else [1, 0]
+        same = all(bbox([[is_nz(v) for v in row] for row in a]) == bbox([[is_nz(v) for v in row] for row in b])
+                   for a, b in zip(layers, new))
+        if same and all(bbox([[is_nz(v) for v in row] for row in b]) is not None for b in new):
+            return ({'a': new[0]} if 'a' in mk else {'c': new}), (q, i, j)
+    return None
+
+
+def rnd_phist(rng, maxn):
+    """2-4 multiplies on ONE plane object with attribute updates (setter and in place) and repeated / different
+    wavelengths in between"""
+    import copy
+    L = rng.choice([1, 1, 2, 3, 4, 6, 8])
+    for _ in range(50):
+        pl, _sh = rnd_plane(rng, L, maxn)
+        info = chain_boxes({'planes': [pl]})
+        if not (info['shape_mismatch'] or info['zero_mask']):
+            break
+    pl['kind'] = rng.choice(['Plane', 'Pupil'])
+    pl['focal'] = rng.choice([None, '2']) if pl['kind'] == 'Pupil' else None
+    pl['pix'] = None
+    cur = copy.deepcopy(pl)
+    cur_mask = explicit_mask(pl)
+    acts = []
+    nmul = 0
+    target = rng.randint(2, 4)
+    while nmul < target:
+        u = rng.random()
+        if u < 0.45 or not acts:
+            m = rng.choice([1, 1, 1, 2, 4])
+            acts.append({'a': 'mul', 'm': m, 'src': rng.choice(['fresh', 'same', 'same', 'last'])})
+            nmul += 1
+        elif u < 0.72:
+            amp = cur['amp']
+            if 'a' in amp and rng.random() < 0.6:
+                new = copy.deepcopy(amp['a'])
+                cplx = any(v[1] != 0 for row in new for v in row)
+                edits = []
+                for _ in range(rng.randint(1, 3)):
+                    i, j = rng.randrange(len(new)), rng.randrange(len(new[0]))
+                    new[i][j] = [rng.randint(-3, 3), rng.randint(-3, 3) if cplx else 0]
+                    edits.append([i, j])
+                how = rng.choice(['inplace', 'setter'])
+                acts.append({'a': 'amp', 'v': {'a': new}, 'how': how, 'edits': edits})
+            elif 'a' in amp:
+                acts.append({'a': 'amp', 'v': {'a': [[rnd_gauss(rng, 0.1) for _ in row] for row in amp['a']]}, 'how': 'setter'})
+            else:
+                acts.append({'a': 'amp', 'v': {'s': rng.choice(GAUSS)}, 'how': 'setter'})
+            cur['amp'] = acts[-1]['v']
+        elif u < 0.9:
+            opd = cur['opd']
+            if L == 1:
+                continue
+            if 'a' in opd:
+                new = copy.deepcopy(opd['a'])
+                edits = []
+                for _ in range(rng.randint(1, 3)):
+                    i, j = rng.randrange(len(new)), rng.randrange(len(new[0]))
+                    new[i][j] = rng.randint(-L, 2 * L)
+                    edits.append([i, j])
+                acts.append({'a': 'opd', 'v': {'a': new}, 'how': rng.choice(['inplace', 'setter']), 'edits': edits})
+            else:
+                acts.append({'a': 'opd', 'v': {'s': rng.randint(-L, 2 * L)}, 'how': 'setter'})
+            cur['opd'] = acts[-1]['v']
+        else:
+            e = mask_edit(rng, cur_mask)
+            if e is None:
+                continue
+            cur_mask = e[0]
+            acts.append({'a': 'mask', 'v': cur_mask, 'at': list(e[1])})
+    return {'op': 'phist', 'L': L, 'lam': str(LAM), 'plane': pl, 'acts': acts}
+
+
 def generate(rng, tier):
     for _ in range(40 if tier == 'quick' else 500):
         yield rnd_views(rng)
+    for _ in range(60 if tier == 'quick' else 800):
+        yield rnd_phist(rng, 5 if tier == 'quick' else 7)
     for _ in range(40 if tier == 'quick' else 500):
         yield rnd_bridge(rng)
     n = 170 if tier == 'quick' else 3000
@@ -400,6 +508,8 @@ def bridge_kind(c):
 
 
 def classify(c):
+    if c['op'] == 'phist':
+        return 'phist/' + '-'.join(a['a'] if a['a'] != 'mul' else f'mul{a["m"]}{a["src"][0]}' for a in c['acts'])
     if c['op'] == 'views':
         return f'views/{len(c["fs"])}/' + bridge_kind(c)
     kinds = []
@@ -411,6 +521,8 @@ def classify(c):
 
 
 def nontrivial(c):
+    if c['op'] == 'phist':
+        return True
     if c['op'] == 'views':
         return len(c['fs']) > 1
     arr = any(('a' in pl['amp']) or ('a' in pl['opd']) or plane_geom(pl)['segs'] is not None for pl in c['planes'])
@@ -442,36 +554,67 @@ def enc_tilts(ts):
     return out
 
 
-def enc_plane(pl, L, lam):
-    out = [0 if pl['kind'] == 'Plane' else 1]
-    amp, opd, mk = pl['amp'], pl['opd'], pl['mask']
-    out += ([2] + enc_carr(amp['a'])) if 'a' in amp else ([0] + C.enc_c((F(amp['s'][0]), F(amp['s'][1]))))
+def enc_amp(amp):
+    return ([2] + enc_carr(amp['a'])) if 'a' in amp else ([0] + C.enc_c((F(amp['s'][0]), F(amp['s'][1]))))
+
+
+def enc_opd(opd, L, lam):
     if 'a' in opd:
         o = opd['a']
-        out += [2, len(o), len(o[0])]
+        out = [2, len(o), len(o[0])]
         for row in o:
             for k in row:
                 out += C.enc_q(F(k) * lam / L)
-    else:
-        out += [0] + C.enc_q(F(opd['s']) * lam / L)
+        return out
+    return [0] + C.enc_q(F(opd['s']) * lam / L)
+
+
+def enc_mask(mk):
     if mk is None:
-        out += [0]
-    elif 's' in mk:
-        out += [1] + C.enc_c((F(mk['s'][0]), F(mk['s'][1])))
-    elif 'a' in mk:
-        out += [2] + enc_carr(mk['a'])
-    else:
-        ly = mk['c']
-        out += [3, len(ly[0]), len(ly[0][0]), len(ly)]
-        for a in ly:
-            out += enc_carr(a)
+        return [0]
+    if 's' in mk:
+        return [1] + C.enc_c((F(mk['s'][0]), F(mk['s'][1])))
+    if 'a' in mk:
+        return [2] + enc_carr(mk['a'])
+    ly = mk['c']
+    out = [3, len(ly[0]), len(ly[0][0]), len(ly)]
+    for a in ly:
+        out += enc_carr(a)
+    return out
+
+
+def enc_plane(pl, L, lam):
+    if pl['kind'] == 'Tilt':
+        # lentil.Tilt(x=a, y=b) stores self.x = b, self.y = a; the model carries the stored attributes
+        return [2] + C.enc_q(float(F(pl['y']))) + C.enc_q(float(F(pl['x'])))
+    out = [0 if pl['kind'] == 'Plane' else 1]
+    amp, opd, mk = pl['amp'], pl['opd'], pl['mask']
+    out += enc_amp(amp) + enc_opd(opd, L, lam) + enc_mask(mk)
     out += enc_pix(pl['pix'])
     out += C.enc_opt(pl['focal'] if pl['kind'] == 'Pupil' else None, lambda f: C.enc_q(float(F(f))))
     out += enc_tilts(pl['tilt'])
     return out
 
 
+def encode_phist(c):
+    L, lam = c['L'], F(c['lam'])
+    out = [5, L] + enc_plane(c['plane'], L, lam)
+    out += [len(c['acts'])]
+    for a in c['acts']:
+        if a['a'] == 'mul':
+            out += [0] + C.enc_q(lam / a['m']) + [1 if a['src'] == 'last' else 0]
+        elif a['a'] == 'amp':
+            out += [1] + enc_amp(a['v'])
+        elif a['a'] == 'opd':
+            out += [2] + enc_opd(a['v'], L, lam)
+        else:
+            out += [3] + enc_mask(a['v'])
+    return out
+
+
 def encode(c):
+    if c['op'] == 'phist':
+        return encode_phist(c)
     if c['op'] == 'views':
         out = [3, 1] + list(c['shape']) + [len(c['fs'])]
         for f in c['fs']:
@@ -531,6 +674,15 @@ def decode(c, ints):
     L = c['L']
     rd = C.Reader(ints, L)
     st = rd.z()
+    if c['op'] == 'phist':
+        if st == 1:
+            return {'err': C.ERRNAMES[rd.z()]}
+        res = []
+        for a in c['acts']:
+            if a['a'] == 'mul':
+                res.append(read_wf(rd, L) if rd.z() == 0 else {'err': C.ERRNAMES[rd.z()]})
+        assert rd.done()
+        return {'muls': res}
     assert st == 0
     if c['op'] == 'views':
         res = {'field': read_fdata(rd, L), 'intensity': read_fdata(rd, L)}
@@ -576,8 +728,18 @@ def mk_pix(p):
     return (float(F(p[0])), float(F(p[1])))
 
 
+def np_mask(a, dt):
+    """a mask array in one of the dtypes a caller may use (bool/int/uint8 only for 0/1 masks)"""
+    z = np_attr(a)
+    if dt in ('int', 'bool', 'uint8') and np.isrealobj(z) and np.all((z == 0) | (z == 1)):
+        return z.astype({'int': int, 'bool': bool, 'uint8': np.uint8}[dt])
+    return z
+
+
 def mk_plane(pl, L, lam):
     lentil = C.import_lentil()
+    if pl['kind'] == 'Tilt':
+        return lentil.Tilt(x=float(F(pl['x'])), y=float(F(pl['y'])))
     kw = {}
     amp, opd, mk = pl['amp'], pl['opd'], pl['mask']
     if 'a' in amp:
@@ -593,9 +755,9 @@ def mk_plane(pl, L, lam):
         if 's' in mk:
             kw['mask'] = cnum(mk['s']).real
         elif 'a' in mk:
-            kw['mask'] = np_attr(mk['a'])
+            kw['mask'] = np_mask(mk['a'], pl.get('mdtype', 'float'))
         else:
-            kw['mask'] = np.array([np_attr(a) for a in mk['c']])
+            kw['mask'] = np.array([np_mask(a, pl.get('mdtype', 'float')) for a in mk['c']])
     kw['pixelscale'] = mk_pix(pl['pix'])
     if pl['kind'] == 'Pupil':
         kw['focal_length'] = None if pl['focal'] is None else float(F(pl['focal']))
@@ -631,11 +793,68 @@ def observe(w):
             'field': view(lambda: w.field), 'intensity': view(lambda: w.intensity)}
 
 
+def run_phist(c):
+    lentil = C.import_lentil()
+    L, lam = c['L'], F(c['lam'])
+    try:
+        p = mk_plane(c['plane'], L, lam)
+    except Exception as e:
+        return {'err': type(e).__name__}
+    inputs = {}
+    last = None
+    res = []
+    for a in c['acts']:
+        if a['a'] == 'mul':
+            m = a['m']
+            if a['src'] == 'last' and last is not None:
+                w = last
+            elif a['src'] == 'same':
+                w = inputs.setdefault(m, lentil.Wavefront(wavelength=float(lam / m)))
+            else:
+                w = lentil.Wavefront(wavelength=float(lam / m))
+            try:
+                last = w * p
+                res.append(observe(last))
+            except Exception as e:
+                res.append({'err': type(e).__name__})
+        elif a['a'] == 'amp':
+            v = a['v']
+            if a['how'] == 'inplace':
+                for i, j in a['edits']:
+                    p.amplitude[i, j] = cnum(v['a'][i][j]) if np.iscomplexobj(p.amplitude) else float(v['a'][i][j][0])
+            elif 'a' in v:
+                p.amplitude = np_attr(v['a'])
+            else:
+                z = cnum(v['s'])
+                p.amplitude = z.real if z.imag == 0 else z
+        elif a['a'] == 'opd':
+            v = a['v']
+            if a['how'] == 'inplace':
+                for i, j in a['edits']:
+                    p.opd[i, j] = float(F(v['a'][i][j]) * lam / L)
+            elif 'a' in v:
+                p.opd = np.array([[float(F(k) * lam / L) for k in row] for row in v['a']], dtype=float)
+            else:
+                p.opd = float(F(v['s']) * lam / L)
+        else:
+            q, i, j = a['at']
+            layers = [a['v']['a']] if 'a' in a['v'] else a['v']['c']
+            val = 1 if is_nz(layers[q][i][j]) else 0
+            if p.mask.ndim == 3:
+                p.mask[q, i, j] = val
+            else:
+                p.mask[i, j] = val
+    return {'muls': res, 'inputs': {str(m): observe(w) for m, w in inputs.items()}}
+
+
 def run_impl(c):
     lentil = C.import_lentil()
+    if c['op'] == 'phist':
+        return run_phist(c)
     if c['op'] == 'views':
         w = lentil.Wavefront.empty(wavelength=1e-6, shape=tuple(c['shape']))
-        w.data = [lentil.field.Field(data=np_carr(f['data']), offset=list(f['off'])) for f in c['fs']]
+        forms = {'tuple': tuple, 'ndarray': np.array, 'list': list}
+        w.data = [lentil.field.Field(data=np_carr(f['data']), offset=forms[f.get('form', 'list')](f['off'])) for f in c['fs']]
         ins = c['insert']
         out = np.array(ins['out'], dtype=float)
         return {'field': view(lambda: w.field), 'intensity': view(lambda: w.intensity),
@@ -644,6 +863,7 @@ def run_impl(c):
     w = lentil.Wavefront(wavelength=float(lam), pixelscale=mk_pix(c['wpix']),
                          focal_length=None if c['wfocal'] is None else float(F(c['wfocal'])),
                          tilt=None if not c['wtilt'] else [float(F(c['wtilt'][0])), float(F(c['wtilt'][1]))])
+    w0 = w
     res = {'steps': [observe(w)], 'err': None, 'insert': None}
     for k, pl in enumerate(c['planes']):
         try:
@@ -651,8 +871,10 @@ def run_impl(c):
             w = w * p
         except Exception as e:
             res['err'] = {'step': k, 'err': type(e).__name__}
+            res['input_after'] = observe(w0)
             return res
         res['steps'].append(observe(w))
+    res['input_after'] = observe(w0)       # the wavefront the chain started from, looked at again afterwards
     ins = c['insert']
     if ins is not None:
         out = np.array(ins['out'], dtype=float)
@@ -694,8 +916,29 @@ def tols(c):
     return (0.0 if exact else 1e-9), (1e-12 if exact else 1e-9)
 
 
+def compare_phist(c, impl, model):
+    tf, ti = tols(c)
+    if 'err' in impl or 'err' in model:
+        return None if impl.get('err') == model.get('err') else f'constructor: implementation {impl.get("err", "ok")}, model {model.get("err", "ok")}'
+    for k, (a, b) in enumerate(zip(impl['muls'], model['muls'])):
+        if 'err' in a or 'err' in b:
+            if a.get('err') != b.get('err'):
+                return f'multiply {k}: implementation {a.get("err", "ok")}, model {b.get("err", "ok")}'
+            continue
+        for key in ('lam', 'pix', 'focal', 'shape'):
+            if a[key] != b[key]:
+                return f'multiply {k}: {key} is {a[key]}, model {b[key]}'
+        m = cmp_view(a['field'], b['field'], tf, f'multiply {k} (plane with its current attributes): field') or \
+            cmp_view(a['intensity'], b['intensity'], ti, f'multiply {k}: intensity')
+        if m:
+            return m
+    return None
+
+
 def compare(c, impl, model):
     tf, ti = tols(c)
+    if c['op'] == 'phist':
+        return compare_phist(c, impl, model)
     if c['op'] == 'views':
         return (cmp_view(impl['field'], model['field'], tf, 'field')
                 or cmp_view(impl['intensity'], model['intensity'], ti, 'intensity')
@@ -716,6 +959,13 @@ def compare(c, impl, model):
             cmp_view(a['intensity'], b['intensity'], ti, f'step {k} intensity')
         if m:
             return m
+    a, b = impl['input_after'], model['steps'][0]
+    if sorted((f['ext'], f['tilt']) for f in a['fields']) != sorted((f['ext'], f['tilt']) for f in b['fields']):
+        return ('the wavefront the chain started from was changed by the chain: its fields/tilt lists are now '
+                f'{[(f["ext"], f["tilt"]) for f in a["fields"]]}, model {[(f["ext"], f["tilt"]) for f in b["fields"]]}')
+    m = cmp_view(a['field'], b['field'], tf, 'field of the input wavefront after the chain')
+    if m:
+        return m
     if (impl['insert'] is None) != (model['insert'] is None):
         return 'insert: one side did not run'
     if impl['insert'] is not None:
@@ -777,7 +1027,65 @@ def oracle_views(c, impl):
     return None
 
 
+def oracle_phist(c, impl):
+    import copy
+    L = c['L']
+    tf, ti = tols(c)
+    tf = max(tf, 1e-12)
+    if 'err' in impl:
+        return f'constructor raised {impl["err"]}'
+    cur = copy.deepcopy(c['plane'])
+    cur['mask'] = explicit_mask(cur)
+    chain = []          # plane snapshots the current `last` wavefront went through
+    mfac = 1
+    k = 0
+    for a in c['acts']:
+        if a['a'] == 'amp':
+            cur['amp'] = a['v']
+        elif a['a'] == 'opd':
+            cur['opd'] = a['v']
+        elif a['a'] == 'mask':
+            cur['mask'] = a['v']
+        else:
+            got = impl['muls'][k]
+            if a['src'] == 'last' and chain:
+                chain = chain + [copy.deepcopy(cur)]
+            else:
+                chain, mfac = [copy.deepcopy(cur)], a['m']
+            if 'err' in got:
+                return f'multiply {k} raised {got["err"]}'
+            if got['lam'] != F(c['lam']) / mfac:
+                return f'multiply {k}: wavelength {got["lam"]}'
+            fv, iv = got['field'], got['intensity']
+
+            def exp(r, cc):
+                v = 1 + 0j
+                for snap in chain:
+                    v *= transmission(snap, L, r, cc, mfac)
+                return v
+            if 'v' in fv:
+                if not close(fv['v'], exp(0, 0), tf):
+                    return f'multiply {k}: plane-wave amplitude {fv["v"]}, the plane\'s current attributes give {exp(0, 0)}'
+            elif 'arr' in fv:
+                R, Cc = len(fv['arr']), len(fv['arr'][0])
+                for i in range(R):
+                    for j in range(Cc):
+                        e = exp(i - R // 2, j - Cc // 2)
+                        if not close(fv['arr'][i][j], e, tf):
+                            return (f'multiply {k}: field[{i},{j}] = {fv["arr"][i][j]} but the plane\'s CURRENT amplitude/opd/mask '
+                                    f'(after the updates made so far) give {e}')
+                        if 'arr' in iv and not close(iv['arr'][i][j], abs(fv['arr'][i][j]) ** 2, ti):
+                            return f'multiply {k}: intensity[{i},{j}] is not |field|^2'
+            k += 1
+    for m, w in impl['inputs'].items():
+        if w['field'].get('v') != 1 or any(f['tilt'] for f in w['fields']) or len(w['fields']) != 1:
+            return f'the incoming Wavefront object (wavelength lambda/{m}) was changed by the multiplications'
+    return None
+
+
 def oracle(c, impl):
+    if c['op'] == 'phist':
+        return oracle_phist(c, impl)
     if c['op'] == 'views':
         return oracle_views(c, impl)
     L = c['L']
